@@ -436,19 +436,20 @@ func maxDist40(dn string, e [6]int) int {
 
 func score40Lemmas(w *World, tier string) []Lemma {
 	decl := "(declare-const c CVSS40)\n(assert (wf40 c))\n"
-	return []Lemma{
+	ls := []Lemma{
 		{Name: "C04/lemma/macrovector_is_one_of_the_270", Pkg: "40", Script: decl + "(assert (not (validMV40 (mveq1_40 c) (mveq2_40 c) (mveq3_40 c) (mveq4_40 c) (mveq5_40 c) (mveq6_40 c))))\n"},
 		{Name: "C04/lemma/distances_in_range/eq1", Pkg: "40", Script: decl + "(assert (not (and (<= 0 (dist1_40 c)) (<= (to_real (dist1_40 c)) (- (depth1_40 (mveq1_40 c)) 1.0)))))\n"},
 		{Name: "C04/lemma/distances_in_range/eq2", Pkg: "40", Script: decl + "(assert (not (and (<= 0 (dist2_40 c)) (<= (to_real (dist2_40 c)) (- (depth2_40 (mveq2_40 c)) 1.0)))))\n"},
 		{Name: "C04/lemma/distances_in_range/eq4", Pkg: "40", Script: decl + "(assert (not (and (<= 0 (dist4_40 c)) (<= (to_real (dist4_40 c)) (- (depth4_40 (mveq4_40 c)) 1.0)))))\n"},
 		{Name: "C04/lemma/distances_in_range/eq3eq6", Pkg: "40", Script: decl + "(assert (not (and (<= 0 (dist36_40 c)) (<= (to_real (dist36_40 c)) (- (depth36_40 (mveq3_40 c) (mveq6_40 c)) 1.0)))))\n"},
 	}
+	return append(ls, intFloatLemmas("C04", "40")...)
 }
 
 func init() {
 	trustedFP := append(append([]string{}, trustedCommon...),
 		"T3 IEEE-754 binary64, round-to-nearest-even per operation, no FMA contraction; math.Round/NaN/IsNaN as documented",
-		"integer-valued floats: addition, subtraction and comparison of float64 values that are integers of magnitude below 2^20 are performed on the integers (exact in IEEE-754)",
+		"integer-valued floats: addition, subtraction and comparison of float64 values that are integers of magnitude below 2^11 are performed on the integers; their agreement with the IEEE-754 operations is discharged in C04 (obligations C04/lemma/integer_valued_floats_exact/*, all pairs of 12-bit signed integers, bit-blasted), the embedding of the bounded mathematical integer n as the 12-bit vector is argued",
 		"T8 v4.0 lookup table, highest-severity vectors and depths transcribed from the FIRST data embedded in github.com/hdonnay/claircore/toolkit (module cache), not from pandatix/go-cvss")
 	props["C04"] = &PropDef{
 		ID: "C04",
